@@ -1467,3 +1467,36 @@ def symbolic_comprehension(X, node, fr, kind):
             X.spec_mode -= 1
         return QuantV(vars_, z3.And(*guards) if guards else z3.BoolVal(True), body)
     return X.spec.code_comprehension(X, node, fr, kind)
+
+
+# ------------------------------------------------------------ list positions
+
+_idxof = {}
+
+
+def idxof(lst, x_leaves):
+    """Some position of an element in a list, as a function of the list (element
+    array, length) and the element: idxof(a, n, x).  Axiom (background): if x occurs
+    in a[0..n) then a[idxof(a, n, x)] = x and 0 <= idxof(a, n, x) < n."""
+    a = lst.ats[0]
+    key = a.sort().sexpr()
+    if key not in _idxof:
+        _idxof[key] = z3.Function('idxof_%d' % len(_idxof), a.sort(), z3.IntSort(),
+                                  a.sort().range(), z3.IntSort())
+    return _idxof[key](a, lst.n, x_leaves[0])
+
+
+def idxof_axioms(formulas):
+    from .vc import uses
+    ax = []
+    for key, f in _idxof.items():
+        if not uses(formulas, {f.name()}):
+            continue
+        a = z3.Const('ia', f.domain(0))
+        n, i = z3.Ints('in_ ii')
+        x = z3.Const('ix_', f.domain(2))
+        ax.append(z3.ForAll([a, n, x, i],
+                            z3.Implies(z3.And(0 <= i, i < n, a[i] == x),
+                                       z3.And(0 <= f(a, n, x), f(a, n, x) < n, a[f(a, n, x)] == x)),
+                            patterns=[z3.MultiPattern(a[i], f(a, n, x))]))
+    return ax
